@@ -98,6 +98,32 @@ example : isAscii wLongSecret = false := by decide
 -- the Kelvin sign is harmless: `K.t` lowers to `k.t`, so it selects the policy of `k.t`
 example : choose false [⟨[.sni [[107, 46, 116]]], false, true⟩, ⟨[], false, false⟩] ⟨[129, 46, 116], fun _ => false⟩ = .config 0 := by decide
 
+/-! ### a wildcard host route matches an EMPTY left-most label, the TLS wildcard matcher does not -/
+
+def wWildSecret : Bytes := [42, 46] ++ wSecret     -- "*.secret.test"
+def wDotSecret : Bytes := 46 :: wSecret            -- ".secret.test"
+
+/-- client-auth policy for `*.secret.test`, then a catch-all without client auth -/
+def wWildPolicies : List Policy := [⟨[.sni [wWildSecret]], false, true⟩, ⟨[], false, false⟩]
+
+/-- negation of the no-bypass clause for a WILDCARD client-auth site: strict SNI-Host is on by
+    default, SNI `.secret.test` is ASCII, bracket-free and equal to the Host, yet the connection gets
+    the catch-all policy 1 (MatchWildcard skips the empty label) while the request is routed to the
+    site `*.secret.test` (MatchHost lets `*` match the empty label), whose proper instances get the
+    client-auth policy 0.  Reproduced with a real handshake (wildcard certificate loaded). -/
+theorem wildcard_empty_label_full_fails :
+    ∃ (ps : List Policy) (sites : List Bytes) (sni host : Bytes) (v : Nat → Bool) (k : Nat),
+      (∃ p ∈ ps, p.clientAuth = true) ∧ noBrackets sni = true ∧ isAscii sni = true ∧
+      serve (effectiveStrict none ps) sites (some sni) host = .handler (some k) ∧
+      sites[k]? = some wWildSecret ∧
+      choose false ps ⟨sni, v⟩ = .config 1 ∧
+      choose false ps ⟨120 :: sni, v⟩ = .config 0 :=
+  ⟨wWildPolicies, [wWildSecret], wDotSecret, wDotSecret, fun _ => false, 0,
+    ⟨_, List.mem_cons_self .., rfl⟩, by decide, by decide, by decide, by decide, by decide, by decide⟩
+
+example : hostMatch wDotSecret wWildSecret = true ∧ matchWildcard wDotSecret wWildSecret = false := by decide
+example : hostMatch (120 :: wDotSecret) wWildSecret = true ∧ matchWildcard (120 :: wDotSecret) wWildSecret = true := by decide
+
 /-! ### `Active()` is not stable under provisioning -/
 
 /-- a block with verifier modules only: the built tls.Config requires a certificate, yet `Active()`
@@ -124,6 +150,9 @@ theorem swallowed_ca_load_error :
 def witnessLines : List String := [
   "C19 pol 0 -/~/~;-/612e74657374/~;-/7a7a2e74657374/~;-/7a7a2e74657374/~;-/7a7a2e74657374/~;-/7a7a2e74657374/~;-/7a7a2e74657374/~;-/7a7a2e74657374/~;-/7a7a2e74657374/~;-/7a7a2e74657374/~;-/7a7a2e74657374/~;-/7a7a2e74657374/~;-/7a7a2e74657374/~;-/7a7a2e74657374/~;-/7a7a2e74657374/~;-/7a7a2e74657374/~;-/7a7a2e74657374/~;-/7a7a2e74657374/~;-/7a7a2e74657374/~;-/7a7a2e74657374/~;-/7a7a2e74657374/~;-/7a7a2e74657374/~;-/7a7a2e74657374/~;-/7a7a2e74657374/~;-/7a7a2e74657374/~;-/7a7a2e74657374/~;-/7a7a2e74657374/~;-/7a7a2e74657374/~;-/7a7a2e74657374/~;-/7a7a2e74657374/~;-/7a7a2e74657374/~ 612e74657374/0/6/1000011010111110",
   "C19 enf t . 7365637265742e74657374 1/5b7365637265742e746573745d/5b7365637265742e746573745d",
+  -- wildcard client-auth site, SNI = Host = ".secret.test": model-level and through a real handshake (known finding)
+  "C19 enf n C/2a2e7365637265742e74657374/~;-/~/~ 2a2e7365637265742e74657374 1/2e7365637265742e74657374/2e7365637265742e74657374",
+  "C19 e2e 3 p1 2e7365637265742e74657374 2e7365637265742e74657374",
   -- verifier-only block (Active() flips with provisioning) and a CA file that does not load
   "C19 ca 1000010",
   "C19 ca 1002000"
